@@ -288,8 +288,11 @@ def check_cases(run, cases, st, distinct=None):
         features(c, c["data"], c["impl_text"], st)
         if distinct is not None and c["impl_text"].count("\n") > 3:
             distinct.add(c["impl_text"])
-        if not (n & 1):
-            c["first_diff"] = (n >> 1) - 1
+        if not (n & 2):
+            st["oracle_failed"] += 1
+            c["oracle_failed"] = True
+        if not (n & 1) or not (n & 2):
+            c["first_diff"] = (n >> 2) - 1
             bad.append(c)
     if bad:
         mv, errs = coq_eval(tag + "-model", IMPORTS, [model_term(c, c["data"]) for c in bad[:5]])
@@ -313,7 +316,7 @@ def check_cases(run, cases, st, distinct=None):
 
 
 def new_stats():
-    return {"stages": {}, "op_failed": 0, "neg_zero_skipped": 0, "compared": 0, "different": 0, "characters": 0, "lines": 0, "rows": 0,
+    return {"stages": {}, "op_failed": 0, "oracle_failed": 0, "neg_zero_skipped": 0, "compared": 0, "different": 0, "characters": 0, "lines": 0, "rows": 0,
             "long_accounts": 0, "wide_figures": 0, "empty_reports": 0, "nonzero_deltas": 0, "mixed_commodity_and_none": 0,
             "multibyte_commodity": 0, "glued_account_amount": 0, "headers_with_metadata": 0, "entries_dropped_empty": 0, "scales": {}}
 
